@@ -9,18 +9,23 @@ redone when the tables change).
 namespace Vore.Lex
 open Vore
 
-/-! ## characters (ASCII restrictions of `unicode.IsSpace`, `IsDigit`, `IsLetter`) -/
+/-! ## characters: `unicode.IsSpace`, `IsDigit`, `IsLetter`
 
-/-- `unicode.IsSpace` on ASCII: `\t \n \v \f \r` and blank -/
-def isSpace (c : UInt8) : Prop := (9 ≤ c ∧ c ≤ 13) ∨ c = 32
+On ASCII bytes these are the ASCII ranges.  The bytes `0x81`, `0x82`, `0x83` stand for "some non-ASCII letter / digit /
+space" and `0x80` (like every other byte ≥ 0x84) for "some other non-ASCII rune": a source that is not ASCII is lexed
+through its class-preserving image `Vore.Unicode.abstractSource` (Vore/Model/Unicode.lean), in which every rune is one
+byte. -/
+
+/-- `unicode.IsSpace`: `\t \n \v \f \r`, blank, and the class byte of non-ASCII spaces -/
+def isSpace (c : UInt8) : Prop := (9 ≤ c ∧ c ≤ 13) ∨ c = 32 ∨ c = 0x83
 instance (c : UInt8) : Decidable (isSpace c) := by unfold isSpace; infer_instance
 
-/-- `unicode.IsDigit` on ASCII -/
-def isDigit (c : UInt8) : Prop := 48 ≤ c ∧ c ≤ 57
+/-- `unicode.IsDigit`: ASCII digits and the class byte of non-ASCII decimal digits -/
+def isDigit (c : UInt8) : Prop := (48 ≤ c ∧ c ≤ 57) ∨ c = 0x82
 instance (c : UInt8) : Decidable (isDigit c) := by unfold isDigit; infer_instance
 
-/-- `unicode.IsLetter` on ASCII -/
-def isLetter (c : UInt8) : Prop := (65 ≤ c ∧ c ≤ 90) ∨ (97 ≤ c ∧ c ≤ 122)
+/-- `unicode.IsLetter`: ASCII letters and the class byte of non-ASCII letters -/
+def isLetter (c : UInt8) : Prop := (65 ≤ c ∧ c ≤ 90) ∨ (97 ≤ c ∧ c ≤ 122) ∨ c = 0x81
 instance (c : UInt8) : Decidable (isLetter c) := by unfold isLetter; infer_instance
 
 /-! ## one iteration of the loop -/
